@@ -44,6 +44,13 @@ Failed(r) ==
       THEN {} ELSE {"inverse_cdf_choice_has_the_channel_measure"})
 \cup (IF Len(r.fast) = 0 \/ { r.fast[f][1] : f \in DOMAIN r.fast } = 0..(D2 - 1)
       THEN {} ELSE {"every_variate_value_covered"})
+\* at the ends of the variate's range (u = 0 exactly, u just below 1) and
+\* everywhere else: a Pauli the channel gives probability zero is never drawn
+\cup (IF /\ \A e \in DOMAIN r.edge : \A q \in 1..n :
+              r.edge[e][q] \in {"I", "X", "Y", "Z"} /\ ch[q][r.edge[e][q]] > 0
+         /\ \A s \in DOMAIN r.samples : \A q \in 1..n :
+              r.samples[s].letters[q] \in {"I", "X", "Y", "Z"} => ch[q][r.samples[s].letters[q]] > 0
+      THEN {} ELSE {"pauli_of_probability_zero_drawn"})
 \cup (IF r.pn # 0 \/ \A s \in DOMAIN r.samples : \A q \in 1..n : r.samples[s].letters[q] = "I"
       THEN {} ELSE {"p_zero_gives_no_error"})
 \cup (IF r.pn # Den \/ \A s \in DOMAIN r.samples : \A q \in 1..n : r.samples[s].letters[q] # "I"
